@@ -189,14 +189,16 @@ type world struct {
 	nextM  int
 	seqNo  int // payload counter (unique data per local change)
 
-	emitted []*message // messages produced by the current step
-	actor   int        // replica whose code runs in the current step
-	ops     []string   // op lines sent to the model so far (replay trace)
-	batch   int        // response batch size in bytes (0 = production default)
-	nomodel bool
-	abort   bool // schedule not meaningful (pruned by the enumerator)
-	failed  bool
-	errs    map[string]int
+	emitted   []*message // messages produced by the current step
+	actor     int        // replica whose code runs in the current step
+	ops       []string   // op lines sent to the model so far (replay trace)
+	batch     int        // response batch size in bytes (0 = production default)
+	nomodel   bool
+	abort     bool     // schedule not meaningful (pruned by the enumerator)
+	phase     [][2]int // if set: the anti-entropy phase is exactly these exchanges, in this order
+	failed    bool     // a property violation was recorded (or the schedule cannot go on)
+	disagreed bool     // the model was left behind in this schedule
+	errs      map[string]int
 }
 
 func peerName(i int) string { return fmt.Sprintf("peer%d", i) }
@@ -374,6 +376,7 @@ type obs struct {
 	stored  []int // sorted interned ids
 	heads   []int // tree.Heads(), sorted
 	entry   []int // head storage entry heads, sorted
+	root    int   // in-memory root (a snapshot), interned
 	parents map[int][]int
 	snaps   map[int]int
 	unknown []string
@@ -415,6 +418,12 @@ func (w *world) observe(i int) (o obs, err error) {
 	sort.Ints(o.stored)
 	rep.tree.Lock()
 	o.heads = w.intern(rep.tree.Heads())
+	o.root = -1
+	if rc := rep.tree.Root(); rc != nil {
+		if id, ok := w.ids[rc.Id]; ok {
+			o.root = id
+		}
+	}
 	rep.tree.Unlock()
 	e, err := rep.hs.GetEntry(ctx, w.treeId)
 	if err != nil {
@@ -475,7 +484,9 @@ func (w *world) advertisedDefect(o obs, m *message) string {
 	return ""
 }
 
-func (o obs) line() string { return "ok " + ints(o.stored) + " " + ints(o.heads) }
+func (o obs) line() string {
+	return "ok " + ints(o.stored) + " " + ints(o.heads) + " @" + fmt.Sprint(o.root)
+}
 
 // ---- steps --------------------------------------------------------------------------------
 
@@ -514,6 +525,7 @@ func (w *world) recovering(what string, f func() error) (err error) {
 
 func (w *world) violate(stream, desc string) {
 	w.failed = true
+	violations++
 	w.r.Violate("C01", "", stream, desc, append([]string(nil), w.ops...))
 }
 
